@@ -3,7 +3,14 @@
    already invoked, what is pending in which queue - all computed from the events that
    happened, never from the model state.  [ok_ev w e] says when event [e] is allowed to
    happen after a history with view [w]; [Holds t] = every event of [t] is allowed after its
-   prefix.  [holds_b] is the same as an executable monitor (run on implementation traces). *)
+   prefix.  [holds_b] is the same as an executable monitor (run on implementation traces).
+
+   Goroutines: every listener invocation [VInv p l args g] must happen on the goroutine that owns
+   the centre of l at that moment - [owner w c]: the loop goroutine of the centre's run service
+   from Start() until that loop has ended, the driver otherwise - whoever published the event
+   and whatever the service is doing (busy, being stopped by a foreign goroutine with events
+   still queued, stopping itself).  Stop() clears the centre: afterwards nothing is received
+   from its queue, nobody is invoked, nothing can be subscribed; the loop then ends. *)
 From Cell2V Require Import Common.Tac Common.ListX Common.AList C17.Model.
 
 (* centre c has a live listener that was GSubscribe'd to n *)
@@ -42,13 +49,15 @@ Definition ok_ev (w : view) (e : ev) : bool :=
          (l =? fresh w) && negb (zmem c (cleared w)) && (is_local c || is_light c)
          && implb g (is_local c)
      | VBegin p _ _ _ => p =? npub w
-     | VInv p l fa =>
+     | VInv p l fa g =>
          (* l is subscribed NOW, to the centre and name of publication p, has not been invoked
-            by p yet, and receives bound args followed by published args *)
+            by p yet, receives bound args followed by published args, and runs on the goroutine
+            that owns its centre *)
          match aget p (frames w), find_live w l with
          | Some f, Some i =>
              at_cn (f_c f) (f_n f) i && negb (zmem l (f_seen f))
              && zlist_eqb fa (i_bound i ++ f_args f)
+             && (g =? owner w (f_c f))
          | _, _ => false
          end
      | VEnd p =>
@@ -64,14 +73,23 @@ Definition ok_ev (w : view) (e : ev) : bool :=
      | VRet _ kept => kept
      | VGPub n _ k qlens => (0 <=? k) && gpub_ok w n k local_centres qlens
      | VDeq c n a =>
-         (* FIFO: the owner receives the oldest pending event *)
+         (* FIFO: the owner receives the oldest pending event; the queue of a run service is
+            received from by its loop only, and not after Stop() *)
          match queue_of w c with
          | (n', a') :: _ => (n =? n') && zlist_eqb a a'
          | [] => false
          end
+         && implb (is_svc c) (loop_alive w c && negb (zmem c (stopped w)))
      | VDrop c runs =>
          (* the owner receives a prefix of the pending events, in order *)
          queue_eqb (expand runs) (firstn (length (expand runs)) (queue_of w c))
+     | VSkip c k =>
+         (* the loop received the k oldest pending events and invoked nobody: nobody listens to them *)
+         loop_alive w c && negb (zmem c (stopped w)) && (0 <? k) && (k <=? qlen w c)
+         && forallb (noone w c) (firstn (Z.to_nat k) (queue_of w c))
+     | VStart c => can_start w c
+     | VStop c => can_stop w c
+     | VLoopEnd c => loop_alive w c && zmem c (stopped w)   (* a loop ends only after Stop() *)
      | VDeadlock => false   (* blocking is only legal right after a send on a full queue *)
      | VOp | VSubFail | VUnsub _ _ _ | VUnsubCb _ _ _ | VAmbig | VClear _ | VEnq _ _ _ | VNop => true
      end).
